@@ -5,7 +5,7 @@ from props import subhist_common as S
 from props import sinkbp_common as BP
 from props import connq_common as CQ
 
-TRANSLATORS = ["accept_order", "error_consts"]     # Model/SubBook.v interprets the order of accept()'s steps read from the source; Model/SubBookWire.v (engine subhist) prints the generated codes/messages
+TRANSLATORS = ["accept_order", "table_ops", "error_consts"]     # Model/SubBook.v interprets the order of accept()'s steps and how each site takes the subscriber table's mutex (Gen/TableOpsGen.v), both read from the source; Model/SubBookWire.v (engine subhist) prints the generated codes/messages
 MODELS = ["subhist", "sinkbp", "connq"]
 BINS = {"release": ["subhist", "sinkbp", "connq"]}
 RULE = ("cases = one script line each (subscribe/accept/reject/abandoned call/drop pending/clone/drop/send/try_send/is_closed/return/unsubscribe/"
